@@ -214,3 +214,49 @@ theorem blockDiag_cons_quad [CommSemiring α] (n : Nat) (B : List (List α)) (hB
     rw [← hx, getD_append_right, getD_append_right]
 
 end Model
+
+namespace Model
+open Mat Spec
+
+variable {α : Type}
+
+/-- the assembled matrix is symmetric when every block is -/
+theorem blockDiag_symm [Zero α] (objs : List (Nat × List (List α))) (h : AllDims objs)
+    (hs : ∀ o ∈ objs, ∀ a b, entry o.2 a b = entry o.2 b a) (i j : Nat) :
+    entry (blockDiag objs) i j = entry (blockDiag objs) j i := by
+  induction objs generalizing i j with
+  | nil => simp [blockDiag, entry]
+  | cons o rest ih =>
+    obtain ⟨n, B⟩ := o
+    have hB : Dims n B := h (n, B) (by simp)
+    rw [blockDiag_cons_entry n B hB, blockDiag_cons_entry n B hB]
+    by_cases hi : i < n <;> by_cases hj : j < n
+    · simp only [hi, hj, if_true]
+      exact hs (n, B) (by simp) i j
+    · simp [hi, hj]
+    · simp [hi, hj]
+    · simp only [hi, hj, if_false]
+      exact ih (fun o ho => h o (by simp [ho])) (fun o ho => hs o (by simp [ho])) _ _
+
+/-- the assembled matrix is positive semi-definite when every block is -/
+theorem blockDiag_psd [CommSemiring α] [PartialOrder α] [IsOrderedAddMonoid α]
+    (objs : List (Nat × List (List α))) (h : AllDims objs)
+    (hp : ∀ o ∈ objs, ∀ x : List α, x.length = o.1 → 0 ≤ quad o.2 x)
+    (x : List α) (hx : x.length = totalParams objs) : 0 ≤ quad (blockDiag objs) x := by
+  induction objs generalizing x with
+  | nil =>
+    have : x = [] := by simpa [totalParams] using hx
+    subst this
+    simp [quad, sumRange]
+  | cons o rest ih =>
+    obtain ⟨n, B⟩ := o
+    have hB : Dims n B := h (n, B) (by simp)
+    have hlen : x.length = n + totalParams rest := by simpa [totalParams] using hx
+    have hsplit : x = x.take n ++ x.drop n := (List.take_append_drop n x).symm
+    have h1 : (x.take n).length = n := by simp; omega
+    have h2 : (x.drop n).length = totalParams rest := by simp; omega
+    rw [hsplit, blockDiag_cons_quad n B hB rest _ _ h1]
+    exact add_nonneg (hp (n, B) (by simp) _ h1)
+      (ih (fun o ho => h o (by simp [ho])) (fun o ho => hp o (by simp [ho])) _ h2)
+
+end Model
